@@ -43,6 +43,9 @@ pub struct RandCfg {
     pub ntags: usize,
     pub stall: bool,
     pub residue: Option<usize>,
+    /// the code's own `try_advance` is not blocked (it runs in every collection and on every 64th deferral), so
+    /// that the reference-counting layer is exercised over the real epoch protocol, not only over the controller's
+    pub nat: bool,
 }
 
 /// Builds one of the seeded heaps (all through real API calls, booked in the shadow state).
@@ -138,6 +141,9 @@ pub fn run_random(ctl: &mut Ctl, cfg: &RandCfg, rng: &mut Rng, label: &str) -> b
     }
     ctl.reset(label);
     build_template(ctl, cfg.template);
+    if cfg.nat {
+        circ::verif::set_advance_blocked(false);
+    }
     let nt = ctl.ws.len();
     for sh in ctl.sh.iter_mut() {
         sh.nops = 0;
@@ -221,6 +227,7 @@ pub fn run_random(ctl: &mut Ctl, cfg: &RandCfg, rng: &mut Rng, label: &str) -> b
             }
         }
     }
+    circ::verif::set_advance_blocked(true);
     if !ctl.panics.is_empty() {
         let msg = ctl.panics.join("; ");
         ctl.record("abort", usize::MAX, &msg, None);
